@@ -201,6 +201,27 @@ class HarnessError(Exception):
     pass
 
 
+class IsolatedDied(HarnessError):
+    """The isolated child ended without a result (killed by a hard CPU limit, crashed). `.progress`
+    holds the records it reported with core.progress() before dying."""
+
+    def __init__(self, msg, progress):
+        HarnessError.__init__(self, msg)
+        self.progress = progress
+
+
+_progress_fd = [None]
+
+
+def progress(obj):
+    """Inside an isolated child: report a progress record to the parent (survives a hard kill)."""
+    fd = _progress_fd[0]
+    if fd is not None:
+        import pickle
+        data = pickle.dumps(('progress', obj))
+        os.write(fd, len(data).to_bytes(4, 'big') + data)
+
+
 def run_isolated(fn, *args):
     """Run fn(*args) in a child forked from this process and return its (pickled) result.
 
@@ -216,6 +237,7 @@ def run_isolated(fn, *args):
         code = 1
         try:
             os.close(r)
+            _progress_fd[0] = w
             # an injected exception that lands inside a generator's finaliser is reported by the
             # interpreter as "Exception ignored in ..." on stderr: noise, not a result
             sys.unraisablehook = lambda *a: None
@@ -224,18 +246,31 @@ def run_isolated(fn, *args):
             except BaseException:
                 res = ('err', traceback.format_exc())
             data = pickle.dumps(res)
-            with os.fdopen(w, 'wb') as f:
-                f.write(data)
+            os.write(w, len(data).to_bytes(4, 'big'))
+            view = memoryview(data)
+            while view:
+                n = os.write(w, view[:65536])
+                view = view[n:]
             code = 0
         finally:
             os._exit(code)
     os.close(w)
     with os.fdopen(r, 'rb') as f:
-        data = f.read()
+        raw = f.read()
     os.waitpid(pid, 0)
-    if not data:
-        raise HarnessError('isolated run died without a result')
-    st, res = pickle.loads(data)
+    records = []
+    pos = 0
+    while pos + 4 <= len(raw):
+        n = int.from_bytes(raw[pos:pos + 4], 'big')
+        if pos + 4 + n > len(raw):
+            break
+        records.append(pickle.loads(raw[pos + 4:pos + 4 + n]))
+        pos += 4 + n
+    prog = [rec[1] for rec in records if rec[0] == 'progress']
+    final = [rec for rec in records if rec[0] in ('ok', 'err')]
+    if not final:
+        raise IsolatedDied('isolated run died without a result', prog)
+    st, res = final[-1]
     if st != 'ok':
         raise HarnessError(res)
     return res
